@@ -524,6 +524,11 @@ def rule_accessor_wiring(ctx, R):
     return n
 
 
+IDLE_DENY = ('take_while', 'skip_while', 'map_while', 'take', 'skip', 'step_by', 'nth', 'last', 'dedup', 'dedup_by',
+             'dedup_by_key', 'unique', 'truncate', 'pop', 'remove', 'swap_remove', 'drain', 'retain', 'split_off',
+             'find', 'find_map', 'position', 'min_by_key', 'max_by_key', 'rev', 'chunks', 'windows', 'first')
+
+
 def rule_observers(ctx, R, parts=('wasted', 'skip', 'idle', 'clear')):
     """observers of expiry do not depend on when the periodic collection runs"""
     n = 0
@@ -643,6 +648,15 @@ def rule_observers(ctx, R, parts=('wasted', 'skip', 'idle', 'clear')):
                              for x in q.walk())
         ctx.check(okl, R, b, tname + ':idle-lookup(scene)', '', 'the idle listing does not query IdleLookup(scene_id) '
                   'for the requested scene')
+        # every lookup result that is not expired is listed: besides the expiry filter nothing drops, bounds or
+        # short-circuits the stream of results (take_while on a shared iterator swallows the element that ends a run,
+        # skip/take/step_by/dedup/... lose tracks for some distributions of ids over shards)
+        from lib import deep_calls
+        drops = sorted({c.name for _, c in deep_calls(ctx.F, b, *IDLE_DENY)})
+        n += 1
+        ctx.check(not drops, R, b, tname + ':idle-lists-every-unexpired-result', '',
+                  'the idle listing passes the lookup results through %s: besides the Ok(Wasted) filter no adaptor may drop '
+                  'or bound elements - which tracks are reported would depend on how their ids fall into shards' % drops)
     cw = ctx.anchor(R, API + '::clear_wasted') if 'clear' in parts else None
     if cw is not None:
         cl = cw.find_calls('track::store::TrackStore::clear')
